@@ -189,7 +189,7 @@ func prepareDet(cfg *config) ([]string, []string, map[string]any, error) {
 
 	pool := detGrammarPool(cfg)
 	// grammars composed from building blocks under drawn options (VERIF_SEED decides which)
-	nComposed := 16
+	nComposed := 26 // at least one composition dedicated to each block
 	if cfg.tier == "thorough" {
 		nComposed = 48
 	}
